@@ -16,6 +16,7 @@ EXTENDS Integers, Sequences, FiniteSets, TLC, Json
 
 CONSTANTS RtmpPubs, RtspPubs, CustPubs, PsPubs,     \* input sessions (ids)
           RtmpSubs, FlvSubs,                        \* output sessions
+          TsSubs,                                   \* HTTP-TS subscribers (what they receive comes out of the TS remuxer: not observed by Probe)
           PullRetry,                                \* pull_retry_num of API-started pulls (-1 = forever)
           PullAuto,                                 \* auto_stop_pull_after_no_out_ms: -1 never, 0 immediately, > 0 window
           PullEnabled,                              \* relay pull actions are part of the model
@@ -33,7 +34,8 @@ NetPubs == RtmpPubs \cup RtspPubs \cup WirePubs
 \* that goroutine for RtmpPubs / Subs, which are attached and deleted by direct calls)
 AutoPubs == RtspPubs \cup WirePubs
 Pubs == NetPubs \cup CustPubs \cup PsPubs
-Subs == RtmpSubs \cup FlvSubs
+Subs == RtmpSubs \cup FlvSubs \cup TsSubs
+FwdSubs == RtmpSubs \cup FlvSubs      \* subscribers a forwarded probe message reaches at once
 Sessions == Pubs \cup Subs
 
 VARIABLES grp,      \* the group exists
@@ -214,7 +216,7 @@ Kick(x) ==
 Probe(x) ==
   /\ x \in Pubs /\ (ss[x] = "in" \/ (x \in CustPubs /\ ss[x] = "gone"))
   /\ LET hk  == IF HookOn /\ inp = x /\ owner # "" THEN [i \in 1..ProbeMsgs |-> N("hook_msg", owner)] ELSE <<>>
-         fwd == inp = x /\ \E y \in Subs : ss[y] = "in" /\ ~closed[y]     \* an attached, un-kicked subscriber received it
+         fwd == inp = x /\ \E y \in FwdSubs : ss[y] = "in" /\ ~closed[y]     \* an attached, un-kicked subscriber received it
      IN act' = [name |-> "Probe", x |-> x,
                 obs |-> [ret |-> IF hk # <<>> \/ fwd THEN "ok" ELSE "rejected",   \* "ok" = it had an observable effect
                          notif |-> <<>>, hook |-> hk, attempts |-> pull.attempts, fwd |-> fwd]]
@@ -388,12 +390,12 @@ PushStep == /\ \E t \in PushTargets : PushOk(t) \/ PushFail(t) \/ PushEnd(t)
 \* subscriber it is forwarded to (the RtmpPubs / RtspPubs of the driver hand their media to the group
 \* directly, so their connections never carry a byte).
 Touched(x, p) == \/ (x = p /\ p \in WirePubs /\ ss[p] = "in")
-                 \/ (x \in Subs /\ ss[x] = "in" /\ ~closed[x] /\ inp = p)
+                 \/ (x \in FwdSubs /\ ss[x] = "in" /\ ~closed[x] /\ inp = p)
 IdlFx == idl' = IF act'.name = "Probe"
                   THEN [x \in Sessions |-> IF idl[x] = "still" /\ Touched(x, act'.x) THEN "moved" ELSE idl[x]]
                   ELSE idl
 Sweep ==
-  /\ ~PullEnabled /\ PushTargets = {} /\ nsweeps < MaxSweep
+  /\ ~PullEnabled /\ PushTargets = {} /\ TsSubs = {} /\ nsweeps < MaxSweep
   /\ nsweeps' = nsweeps + 1
   /\ IF ~grp THEN /\ act' = [name |-> "Sweep", obs |-> Obs("ok", <<>>, <<>>)]
                   /\ UNCHANGED <<grp, inp, owner, ss, closed, nh, idl>>
